@@ -177,7 +177,10 @@ func (fv *FuncVerifier) globalVar(o *types.Var) Term {
 		t := Term{name, s}
 		if s.Kind == KRef && !fv.u.declared["ghostinit:"+name] {
 			fv.u.declared["ghostinit:"+name] = true
+			tm, ph := fv.termMode, fv.pureHeaps
+			fv.termMode, fv.pureHeaps = false, nil // the entry-state allocation set, not a formal of a pure definition
 			al := fv.allocSet(&State{heaps: map[string]Term{}}, s)
+			fv.termMode, fv.pureHeaps = tm, ph
 			fv.u.decls = append(fv.u.decls, fmt.Sprintf("(assert (and (> %s 0) (select %s %s)))", name, al.S, name))
 		}
 		return t
